@@ -70,6 +70,7 @@ type Intr struct {
 const (
 	ExtTriggerError  = "trigger/error"
 	ExtTriggerUpdate = "trigger/update"
+	ExtFromThird     = "verif/from-third-peer" // carried by every response the third peer sends
 )
 
 type Case struct {
@@ -141,6 +142,7 @@ type Result struct {
 	// listed when the intruding message was delivered (a response for a request that has ended reaches the
 	// hooks whoever sends it, and cannot affect anything)
 	ThirdHookLive  int
+	BlockHookSawThird int // block hook calls whose response data carried the third peer's marker extension
 	SentToThirdLive int // messages the requestor sent to the third peer in reaction to such a message
 	Intrusions     int // intruding messages actually delivered
 	IntrudedLive   int // ... while one of the targeted requests was still listed by the requestor
@@ -351,6 +353,10 @@ func RunWith(t *testing.T, c Case, st *Stores) *Result {
 		rq.GS.RegisterIncomingBlockHook(func(p peer.ID, rd graphsync.ResponseData, bd graphsync.BlockData, ha graphsync.IncomingBlockHookActions) {
 			mu.Lock()
 			res.BlockHookPeers[string(p)]++
+			if _, marked := rd.Extension(ExtFromThird); marked {
+				// the response data handed to a block hook is something the third peer sent
+				res.BlockHookSawThird++
+			}
 			mu.Unlock()
 			i, ok := getID(rd.RequestID())
 			if !ok {
@@ -672,7 +678,7 @@ func RunWith(t *testing.T, c Case, st *Stores) *Result {
 							paused = true
 						}
 					}
-					var exts []graphsync.ExtensionData
+					exts := []graphsync.ExtensionData{{Name: ExtFromThird, Data: basicnode.NewString("third")}}
 					if op.X.Ext != "" {
 						exts = append(exts, graphsync.ExtensionData{Name: graphsync.ExtensionName(op.X.Ext), Data: basicnode.NewString("x")})
 					}
